@@ -1,8 +1,9 @@
 SPECIFICATION Spec
 CONSTANTS
   Tables = {1, 2, 3}
-  Actors = {1, 2, 3}
+  Actors = {1, 2, 3, 4}
+  Registrars = {4}
   Req <- MCReq
   NoOne <- MCNoOne
-INVARIANTS Inv NoCycle NoDeadlock
+INVARIANTS Inv NoCycle NoDeadlock RootHolder
 CHECK_DEADLOCK FALSE
